@@ -103,8 +103,7 @@ pub async fn run_case(case: &Case, ch: &mut dyn Choose) -> Outc {
                 if q == 2 {
                     q2_ids.push_back(id);
                 }
-                // client roles acknowledge QoS 2 with PUBACK today (C03's subject); order is what counts here
-                expected.push((if q == 1 || !case.role.is_server() { "PUBACK" } else { "PUBREC" }, id));
+                expected.push((if q == 1 { "PUBACK" } else { "PUBREC" }, id));
                 R::Publish { dup: false, qos: q, retain: false, topic: format!("t/{i}"), pid: Some(id), props: vec![], payload: vec![i as u8; 3] }
             }
             Req::Sub => {
@@ -387,10 +386,7 @@ fn long_case(seed: u64, i: u64, quick: bool) -> (Case, Rng) {
     let mut rng = Rng::for_case(seed, "C04-long", i);
     let role = *rng.pick(&Role::ALL);
     let mut kinds = kinds_for(role);
-    if role.is_server() {
-        // client roles acknowledge QoS 2 with PUBACK (C03's subject), a PUBREL would end the connection
-        kinds.push(Req::Rel);
-    }
+    kinds.push(Req::Rel);
     let len = 4 + rng.usize(if quick { 16 } else { 36 });
     let reqs: Vec<Req> = (0..len).map(|_| *rng.pick(&kinds)).collect();
     let case = Case { role, reqs, ready_mask: rng.next() as u32, shape: *rng.pick(&[Shape::OneWrite, Shape::PerPacket, Shape::SplitMid]), backpressure: rng.chance(1, 3) };
